@@ -333,6 +333,13 @@ func TestC18(t *testing.T) {
 								continue
 							}
 							c := c18Case{Format: format, Doc: doc, FaultAt: k, Chunk: chunk, Mode: k % 2, Err: (k / 2) % len(faultErrors)}
+							// the reader options take turns along the offsets (each error value meets each of them)
+							if format == "ts" && (k/10)%2 == 1 {
+								c.Opts.PID = ttxPID
+							}
+							if format == "stl" && (k/10)%2 == 1 {
+								c.Opts.IgnoreTCP = true
+							}
 							ev.CaseH(true, mix(strHash(string(doc)), uint64(k), uint64(chunk)), "read-fault", "format-"+format, fmt.Sprintf("read-fault-mode-%d", c.Mode))
 							total++
 							verdict(t, "C18", "c18", c, checkC18)
